@@ -414,9 +414,58 @@ def _decide(p, q, quats):
     ga, gb = generators(a), generators(b)
     if ga == gb:
         return DIFFERENT
-    if not quats and _free_trig_ring(a, b):
+    if not quats and (_free_trig_ring(a, b) or _radical_trig_ring(a, b)):
         return DIFFERENT
     return UNKNOWN
+
+
+def _radical_trig_ring(a, b):
+    """True when every atom of a and b is a symbol, ONE radical T = sqrt(P) with P a polynomial in symbols only, or
+    sin/cos of q*T for one rational q (sin to degree <= 1), all with non-negative exponents.  Over K = Q(symbols), T is
+    algebraic (T^2 = P, applied by the normaliser) and e^{i q T} is transcendental over K(T), so K(T)[cos, sin]/(sin^2 +
+    cos^2 - 1) embeds in the functions of the symbols and {T^j cos^n, T^j sin cos^n : j in {0,1}} is a basis: different
+    normal forms are different functions (not identically equal), whatever atoms each side happens to mention."""
+    T = None
+    q = None
+    for p in (a, b):
+        for m in p.t:
+            for at, e in m:
+                if e < 0:
+                    return False
+                if at.kind == "sym":
+                    continue
+                if at.kind == "sqrt":
+                    arg = at.key[0]
+                    if not isinstance(arg, Poly) or any(x.kind != "sym" or ee < 0 for mm in arg.t for x, ee in mm) or e > 1:
+                        return False
+                    if T is None:
+                        T = at
+                    elif T is not at:
+                        return False
+                    continue
+                if at.kind in ("sin", "cos"):
+                    if at.kind == "sin" and e > 1:
+                        return False
+                    arg = at.key[0]
+                    if not isinstance(arg, Poly) or len(arg.t) != 1:
+                        return False
+                    (mono, c), = arg.t.items()
+                    if len(mono) != 1 or mono[0][1] != 1 or mono[0][0].kind != "sqrt":
+                        return False
+                    if T is None:
+                        T = mono[0][0]
+                    elif T is not mono[0][0]:
+                        return False
+                    if q is None:
+                        q = c
+                    elif q != c:
+                        return False
+                    continue
+                return False
+    if T is None:
+        return False
+    arg = T.key[0]
+    return isinstance(arg, Poly) and all(x.kind == "sym" and ee > 0 for mm in arg.t for x, ee in mm) and len(arg.t) >= 1
 
 
 def _free_trig_ring(a, b):
